@@ -17,20 +17,20 @@ import (
 
 // WorkerIn is the job description passed by cmd/check (JSON in VERIF_JOB).
 type WorkerIn struct {
-	Prop      string `json:"prop"`
-	Mode      string `json:"mode"` // run | replay | count
-	Seed      uint64 `json:"seed"`
-	Thorough  bool   `json:"thorough"`
-	Worker    int    `json:"worker"`  // this worker's number
-	Workers   int    `json:"workers"` // total workers: enumerated plans and random runs are dealt round-robin
-	Random    int    `json:"random"`  // total number of random runs (all workers)
-	WallLimit int    `json:"wall_limit_s"` // soft limit for the random part
-	Replay    string `json:"replay,omitempty"`
-	ReplayDir string `json:"replay_dir"`
-	Out       string `json:"out"`
-	MaxSteps  int    `json:"max_steps"`
-	RawLib    bool   `json:"raw_lib,omitempty"` // uninstrumented cross-check
-	Known     []string `json:"known,omitempty"`  // signatures listed in known_findings.json
+	Prop      string   `json:"prop"`
+	Mode      string   `json:"mode"` // run | replay | count
+	Seed      uint64   `json:"seed"`
+	Thorough  bool     `json:"thorough"`
+	Worker    int      `json:"worker"`       // this worker's number
+	Workers   int      `json:"workers"`      // total workers: enumerated plans and random runs are dealt round-robin
+	Random    int      `json:"random"`       // total number of random runs (all workers)
+	WallLimit int      `json:"wall_limit_s"` // soft limit for the random part
+	Replay    string   `json:"replay,omitempty"`
+	ReplayDir string   `json:"replay_dir"`
+	Out       string   `json:"out"`
+	MaxSteps  int      `json:"max_steps"`
+	RawLib    bool     `json:"raw_lib,omitempty"` // uninstrumented cross-check
+	Known     []string `json:"known,omitempty"`   // signatures listed in known_findings.json
 }
 
 // Sample is a written-out case for the evidence file.
@@ -46,45 +46,46 @@ type Sample struct {
 // Found is one violation (first of its signature in this worker).
 type Found struct {
 	Violation
-	Count  int    `json:"count"`
-	Replay string `json:"replay"`
-	MinSteps int  `json:"min_steps"`
+	Count    int    `json:"count"`
+	Replay   string `json:"replay"`
+	MinSteps int    `json:"min_steps"`
+	Unstable bool   `json:"unstable,omitempty"` // did not re-execute identically inside the worker process
 }
 
 // WorkerOut is what a worker reports.
 type WorkerOut struct {
-	Prop        string         `json:"prop"`
-	Worker      int            `json:"worker"`
-	Runs        int            `json:"runs"`
-	EnumTotal   int            `json:"enum_total"`
-	EnumRuns    int            `json:"enum_runs"`   // runs spent on enumerated plans (incl. sweeps)
-	EnumBases   int            `json:"enum_bases"`  // enumerated base plans handled by this worker
-	RandomRuns  int            `json:"random_runs"`
-	Steps       int64          `json:"steps"`
-	VirtualNs   int64          `json:"virtual_ns"`
-	WallS       float64        `json:"wall_s"`
-	Faults      map[string]int `json:"faults"`
-	Probes      map[string]int `json:"probes"`
-	Cover       map[string]int `json:"cover"`
-	Schedules   []uint64       `json:"schedules"`  // distinct schedule hashes
-	NonTrivial  []uint64       `json:"nontrivial"` // distinct schedule hashes of non-trivial runs
-	States      []uint64       `json:"states"`
-	SelMulti    int64          `json:"select_multi_ready"`
-	SelNonSrc   int64          `json:"select_non_source_order"`
-	MultiTask   int64          `json:"decisions_with_choice"`
-	Decisions   int64          `json:"decisions"`
-	FairDef     int64          `json:"fair_default_decisions"`
-	MaxAfter    int            `json:"max_steps_after_last_fault"`
-	MaxSteps    int            `json:"max_steps_in_a_run"`
-	Leaks       int            `json:"cleanup_deadlocks"`
-	Samples     []Sample       `json:"samples"`
-	Found       []*Found       `json:"found"`
-	Infra       string         `json:"infra,omitempty"`
-	Reproduced  bool           `json:"reproduced,omitempty"`
-	ReplayTrace []string       `json:"replay_trace,omitempty"`
-	Policies    map[string]int `json:"policies"`
-	StoppedEarly bool          `json:"stopped_early,omitempty"` // enough unlisted violations found: remaining runs skipped
-	RunHashes   []uint64       `json:"run_hashes,omitempty"` // mode hashes: one per run index
+	Prop         string         `json:"prop"`
+	Worker       int            `json:"worker"`
+	Runs         int            `json:"runs"`
+	EnumTotal    int            `json:"enum_total"`
+	EnumRuns     int            `json:"enum_runs"`  // runs spent on enumerated plans (incl. sweeps)
+	EnumBases    int            `json:"enum_bases"` // enumerated base plans handled by this worker
+	RandomRuns   int            `json:"random_runs"`
+	Steps        int64          `json:"steps"`
+	VirtualNs    int64          `json:"virtual_ns"`
+	WallS        float64        `json:"wall_s"`
+	Faults       map[string]int `json:"faults"`
+	Probes       map[string]int `json:"probes"`
+	Cover        map[string]int `json:"cover"`
+	Schedules    []uint64       `json:"schedules"`  // distinct schedule hashes
+	NonTrivial   []uint64       `json:"nontrivial"` // distinct schedule hashes of non-trivial runs
+	States       []uint64       `json:"states"`
+	SelMulti     int64          `json:"select_multi_ready"`
+	SelNonSrc    int64          `json:"select_non_source_order"`
+	MultiTask    int64          `json:"decisions_with_choice"`
+	Decisions    int64          `json:"decisions"`
+	FairDef      int64          `json:"fair_default_decisions"`
+	MaxAfter     int            `json:"max_steps_after_last_fault"`
+	MaxSteps     int            `json:"max_steps_in_a_run"`
+	Leaks        int            `json:"cleanup_deadlocks"`
+	Samples      []Sample       `json:"samples"`
+	Found        []*Found       `json:"found"`
+	Infra        string         `json:"infra,omitempty"`
+	Reproduced   bool           `json:"reproduced,omitempty"`
+	ReplayTrace  []string       `json:"replay_trace,omitempty"`
+	Policies     map[string]int `json:"policies"`
+	StoppedEarly bool           `json:"stopped_early,omitempty"` // enough unlisted violations found: remaining runs skipped
+	RunHashes    []uint64       `json:"run_hashes,omitempty"`    // mode hashes: one per run index
 }
 
 // ReplayFile is the on-disk format of a minimised failing run.
@@ -103,6 +104,10 @@ type ReplayFile struct {
 	Events   []string `json:"event_log"`
 	Tasks    []string `json:"tasks_at_end"`
 }
+
+var replayN int
+
+func nextReplayN() int { replayN++; return replayN }
 
 const hashCap = 250_000
 
@@ -292,6 +297,7 @@ func RunWorker(t *testing.T, scenarios map[string]*Scenario) {
 		known[k] = true
 	}
 	unlisted := 0
+	unstableRetries := 0
 	// once a worker has seen this many runs violate the property (violations
 	// not listed as known findings) the verdict is settled: the remaining
 	// runs are skipped, which keeps a badly broken tree from costing hours
@@ -329,9 +335,18 @@ func RunWorker(t *testing.T, scenarios map[string]*Scenario) {
 			if !known[sig] {
 				unlisted++
 			}
-			if f := a.found[sig]; f != nil {
+			if f := a.found[sig]; f != nil && !f.Unstable {
 				f.Count++
-			} else if len(a.found) < 6 {
+			} else if len(a.found) < 6 || (f != nil && f.Unstable && unstableRetries < 20) {
+				if f != nil {
+					unstableRetries++
+					for i, x := range out.Found {
+						if x == f {
+							out.Found = append(out.Found[:i], out.Found[i+1:]...)
+							break
+						}
+					}
+				}
 				f := &Found{Violation: *r.Viol, Count: 1}
 				a.found[sig] = f
 				out.Found = append(out.Found, f)
@@ -437,13 +452,28 @@ func minimise(t *testing.T, sc *Scenario, in *WorkerIn, p *Plan, r *RunResult, s
 	}
 	again := try(p, tape)
 	if again == nil || again.Hash != r.Hash {
+		// The run did not fail the same way when re-executed in this process.
+		// Either the simulator is nondeterministic, or the library keeps state
+		// across runs (this process has executed many runs before this one).
+		// A fresh process decides: the unminimised run is written as it is and
+		// cmd/check replays it; if it does not reproduce there, that is exit 2.
 		got := "no violation"
 		if again != nil {
 			got = fmt.Sprintf("hash %x vs %x", again.Hash, r.Hash)
 		}
-		fmt.Fprintf(os.Stderr, "INFRA: nondeterminism: run %s (%s) did not replay from its own tape: %s\nplan=%s\n", runID, clause, got, p)
-		out.Infra = "nondeterminism replaying " + runID
-		os.Exit(2)
+		fmt.Fprintf(os.Stderr, "note: run %s (%s) did not replay from its own tape in-process: %s; deferring to a fresh process\nplan=%s\n", runID, clause, got, p)
+		rf := ReplayFile{Property: in.Prop, Clause: r.Viol.Clause, Stage: r.Viol.Stage, Class: r.Viol.Class, Msg: r.Viol.Msg,
+			Seed: in.Seed, Run: runID, Plan: p, Tape: tape, Hash: r.Hash, Steps: r.Steps}
+		_ = os.MkdirAll(in.ReplayDir, 0o755)
+		name := filepath.Join(in.ReplayDir, fmt.Sprintf("%s-%d-w%d-%d-unstable.json", in.Prop, in.Seed, in.Worker, nextReplayN()))
+		b, _ := json.MarshalIndent(rf, "", " ")
+		if err := os.WriteFile(name, b, 0o644); err != nil {
+			fmt.Fprintln(os.Stderr, "INFRA: cannot write replay file:", err)
+			os.Exit(2)
+		}
+		f.Replay = name
+		f.Unstable = true
+		return
 	}
 	cur, curTape := p, tape
 	deadline := time.Now().Add(8 * time.Second)
@@ -518,7 +548,7 @@ func minimise(t *testing.T, sc *Scenario, in *WorkerIn, p *Plan, r *RunResult, s
 	f.Violation = *final.Viol
 	f.MinSteps = final.Steps
 	_ = os.MkdirAll(in.ReplayDir, 0o755)
-	name := filepath.Join(in.ReplayDir, fmt.Sprintf("%s-%d-w%d-%d.json", in.Prop, in.Seed, in.Worker, len(out.Found)))
+	name := filepath.Join(in.ReplayDir, fmt.Sprintf("%s-%d-w%d-%d.json", in.Prop, in.Seed, in.Worker, nextReplayN()))
 	b, _ := json.MarshalIndent(rf, "", " ")
 	if err := os.WriteFile(name, b, 0o644); err != nil {
 		fmt.Fprintln(os.Stderr, "INFRA: cannot write replay file:", err)
